@@ -238,6 +238,49 @@ def deviation_case(env, case, st):
             st.fail("rangeproof_sign refused a sufficient %d-byte buffer (proof needs %d)" % (bl, need), {"cfg": L.config, "value": value, "exp": exp, "min_bits": mb})
         if r == 1 and (pl3.value != need or bytes(pr[:need]) != proof.raw[:need]):
             st.fail("proof written into a %d-byte buffer differs" % bl, {"cfg": L.config, "value": value})
+    # ---- rewind: every combination of the optional outputs x {creator's nonce, another nonce}, with and without an embedded message
+    for msg in ([b"", bytes(range(1, 41))] if cap >= 40 else [b""]):
+        pr = buf(5134)
+        plx = c_size_t(5134)
+        if L.rangeproof_sign(c, pr, byref(plx), minv, cm, BLIND, NONCE, exp, mb, value, msg if msg else None, len(msg), None, 0, gobj) != 1:
+            continue
+        pb = pr.raw[:plx.value]
+        for want_blind in (0, 1):
+            for want_value in (0, 1):
+                for want_msg in (0, 1):
+                    for nonce, good in ((NONCE, True), (bytes([NONCE[0] ^ 0x80]) + NONCE[1:], False), (BLIND, False)):
+                        bo, mo = buf(b"\xa5" * 32), buf(b"\xa5" * 4096)
+                        mlen = c_size_t(4096)
+                        vo = c_uint64(0xA5A5)
+                        rmn, rmx = c_uint64(0), c_uint64(0)
+                        rw = L.rangeproof_rewind(c, bo if want_blind else None, byref(vo) if want_value else None, mo if want_msg else None, byref(mlen) if want_msg else None,
+                                                 nonce, byref(rmn), byref(rmx), cm, exact(pb), len(pb), None, 0, gobj)
+                        st.calls += 1
+                        st.count("rewind-optional-%s" % ("creator" if good else "foreign"))
+                        d_ = {"cfg": L.config, "value": value, "min_value": minv, "exp": exp, "min_bits": mb, "msglen": len(msg),
+                              "blind_out": bool(want_blind), "value_out": bool(want_value), "message_out": bool(want_msg), "creator_nonce": good}
+                        if rw != (1 if good else 0):
+                            st.fail("rangeproof_rewind returned %d with %s nonce (optional outputs: blind %d, value %d, message %d)" % (rw, "the creator's" if good else "a foreign", want_blind, want_value, want_msg), d_)
+                        elif good:
+                            if (want_blind and bo.raw != BLIND) or (want_value and vo.value != value):
+                                st.fail("rangeproof_rewind returned a wrong value / blinding factor for an optional-output combination", d_)
+                            if want_msg and msg and (mo.raw[:len(msg)] != msg or any(mo.raw[len(msg):mlen.value])):
+                                st.fail("rangeproof_rewind returned a wrong embedded message for an optional-output combination", d_)
+    # ---- crafted messages: a block chosen so that (stream block XOR message block) is >= n; creation may refuse (documented), but a
+    #      proof that IS created must rewind to exactly this message (checked by one_proof)
+    if cap >= 128:
+        pr = buf(5134)
+        plx = c_size_t(5134)
+        zero = b"\x00" * cap
+        if L.rangeproof_sign(c, pr, byref(plx), minv, cm, BLIND, NONCE, exp, mb, value, zero, cap, None, 0, gobj) == 1:
+            lay = RP.layout(pr.raw[:plx.value])
+            for t in range(min(4, cap // 32)):
+                stream = pr.raw[lay["s"][t]:lay["s"][t] + 32]
+                for target in (2**256 - 1, N + 1, N):
+                    blk = bytes(x ^ y for x, y in zip(stream, b32(target)))
+                    m2 = zero[:32 * t] + blk + zero[32 * (t + 1):]
+                    one_proof(env, st, value, minv, exp, mb, msg=m2)
+                    st.count("crafted-message")
     if L.illegal or L.errors:
         st.fail("callback fired", {"cfg": L.config})
         L.cb_reset()
@@ -269,7 +312,7 @@ def main():
                   rule="full product value (U64 alphabet%s) x min_value (16 boundary values, min_value <= value plus min_value = value+1) x exp %s x min_bits %s; documented-invalid parameters must be refused, documented-valid ones must succeed, the grey zone may do either; every success must verify with min <= value <= max, agree with info, rewind to (value, blind) with the creator's nonce only, respect max_size, be deterministic, and be accepted with the same range by the specified (model) verifier" % (
                       "" if thorough else " (16 values)", exps, bits))
         run_phase(run, "%s/single-deviations" % cfg, deviation_case, core if (first or thorough) else core[::3], setup=setup(cfg),
-                  rule="12 core parameter points x {3 generators, message lengths 0,1,31,32,33,127,128,129,capacity-1/0/+1,3968,4000, extra-commit lengths 0,1,32,33,100, blinds 1,n-1,n,2^256-1, nonces 0,n,2^256-1, output buffers 0,64,65,needed-1,needed,needed+1,5134}")
+                  rule="12 core parameter points x {3 generators, message lengths 0,1,31,32,33,127,128,129,capacity-1/0/+1,3968,4000, extra-commit lengths 0,1,32,33,100, blinds 1,n-1,n,2^256-1, nonces 0,n,2^256-1, output buffers 0,64,65,needed-1,needed,needed+1,5134}; rewind with EVERY combination of the optional outputs (blind, value, message) x {creator's nonce, two foreign nonces} x {no message, 40-byte message}; messages crafted block-wise so that stream XOR message is n, n+1 or 2^256-1 (creation may refuse, a created proof must rewind to exactly that message)")
         if run.out_of_time():
             run.cov["exhaustive"] = False
             break
